@@ -29,6 +29,12 @@ MODULE = 'PymtlVerif.Props.C20p'
 THEOREMS = ['PV.C20p.' + t for t in [
   # level 1: one-cycle facts of the transcribed control equations (any state, any input)
   'stall_chain', 'stall_keeps', 'bubble', 'squash_origin', 'squash_younger_only', 'rf_write_only_W', 'x0_never_written', 'x0_zero',
+  # level 2: all states reachable from power-on under ANY input list (ghost sequence numbers)
+  'ghost_projection', 'stage_conservation', 'tags_in_order', 'no_dup_no_loss', 'squashed_younger', 'drop_unit_exact',
+  'deq_is_accounted', 'rf_written_by_unstalled_W',
+  # level 3: refinement of the ISA interpreter for all programs / all admissible environment timings
+  'isa_step_is_datapath', 'refinement_invariant', 'arch_state_refines', 'commits_are_isa', 'branch_decision_is_isa',
+  'env_assumption_satisfiable', 'reset_gives_postReset', 'runs_satisfiable',
 ]]
 THEOREM_MODULE = {t: MODULE for t in THEOREMS}
 TRUSTED = [
@@ -39,6 +45,15 @@ TRUSTED = [
   '/repo by the cycle-exact comparison of every EnvOut field and ~150 internal signals + the register file on recorded traces',
   'the recording harness re-issues the schedule of sim_reset / sim_tick (clock edge, then the update schedule) from the same '
   'generated tick functions, reading signals after the combinational schedule of each cycle',
+]
+
+ASSUMPTIONS = [
+  'level 3 (PV.C20p.refinement_invariant / arch_state_refines / commits_are_isa) is about the MODEL Model/Pipe.lean and holds under: '
+  '(a) Runs p N: the ISA interpreter executes N instructions from reset without stopping and none of them was overwritten by an '
+  'earlier store (no self-modifying code); (b) the explicit environment predicate envOk / EnvTrace (Proofs/PipeSpec.lean): reset low, '
+  'instruction responses = words of the image at accepted fetch addresses in order, data responses in order with little-endian word '
+  'semantics (loads read at acceptance), mngr2proc = the source list in order, every rdy / delay arbitrary; accelerator interface '
+  'unconstrained but unused by ISA-defined programs; (c) start in a PostReset state. Safety only (no liveness / fairness).',
 ]
 
 ENVIN = ['reset', 'imem_req_rdy', 'imem_resp_en', 'imem_resp_data', 'dmem_req_rdy', 'dmem_resp_en', 'dmem_resp_data',
